@@ -107,6 +107,31 @@ package shape
 //@   ensures forall k :: 0 <= k && k < 8 ==> r0[k] != nil
 //@ end
 
+//@ -- C02 (ideal reals; says nothing about rounding): the eight corners in the documented order NW, NE, SE, SW (bottom), then top
+//@ define rowlat(y, h) = atan(sinh(pi * (1.0 - 2.0 * real(y) / rpow2(h)))) * rad2deg
+//@ define collon(x, h) = real(x) * 360.0 / rpow2(h) - 180.0
+//@ case getVertexOnVoxelOffset ideal-corners
+//@   props C02
+//@   float ideal
+//@   split hZoom 0..35
+//@   requires 0 <= lonIndex && lonIndex < pow2(hZoom) && 0 <= latIndex && latIndex < pow2(hZoom)
+//@   -- trusted Mercator bound: the edges of every grid row are within the latitude limit after the 1e-10 cut
+//@   requires abs(cut10(rowlat(latIndex, hZoom))) <= 85.051128779799995527355349622666835784912109375 && abs(cut10(rowlat(latIndex + 1, hZoom))) <= 85.051128779799995527355349622666835784912109375
+//@   loop 0 invariant lonIndexFloat == real(lonIndex)
+//@   ensures [west-east] r0[0].lon == collon(lonIndex, hZoom) && r0[1].lon == collon(lonIndex + 1, hZoom) && r0[2].lon == collon(lonIndex + 1, hZoom) && r0[3].lon == collon(lonIndex, hZoom) && r0[4].lon == collon(lonIndex, hZoom) && r0[5].lon == collon(lonIndex + 1, hZoom) && r0[6].lon == collon(lonIndex + 1, hZoom) && r0[7].lon == collon(lonIndex, hZoom)
+//@   ensures [north-south] r0[0].lat == cut10(rowlat(latIndex, hZoom)) && r0[1].lat == r0[0].lat && r0[2].lat == cut10(rowlat(latIndex + 1, hZoom)) && r0[3].lat == r0[2].lat && r0[4].lat == r0[0].lat && r0[5].lat == r0[0].lat && r0[6].lat == r0[2].lat && r0[7].lat == r0[2].lat
+//@   ensures [bottom-top] r0[0].alt == vPoint.Alt && r0[1].alt == vPoint.Alt && r0[2].alt == vPoint.Alt && r0[3].alt == vPoint.Alt && r0[4].alt == vPoint.Alt + vPoint.Resolution && r0[5].alt == vPoint.Alt + vPoint.Resolution && r0[6].alt == vPoint.Alt + vPoint.Resolution && r0[7].alt == vPoint.Alt + vPoint.Resolution
+//@ end
+
+//@ -- C02: bottom altitude f * 2^(25-v) and cell height 2^(25-v), over ideal reals (both operations are power-of-two scalings, exact in IEEE arithmetic as well)
+//@ func getAltitudeOnVerticalIndexAndZoom
+//@   props C02 C15
+//@   float ideal
+//@   split vZoom 0..35
+//@   ensures [resolution] r0.Resolution == rpow2(25 - vZoom)
+//@   ensures [bottom] r0.Alt == real(altIndex) * rpow2(25 - vZoom)
+//@ end
+
 //@ func GetPointOnExtendedSpatialId
 //@   props C15 C02
 //@   nooverflow
@@ -114,6 +139,20 @@ package shape
 //@   ensures [zoom] isext(extendedSpatialId) && !(0 <= val(fld(extendedSpatialId, 0)) && val(fld(extendedSpatialId, 0)) <= 35 && 0 <= val(fld(extendedSpatialId, 3)) && val(fld(extendedSpatialId, 3)) <= 35) ==> r1 != nil && len(r0) == 0
 //@   ensures [option] option != 0 && option != 1 ==> r1 != nil && len(r0) == 0
 //@   ensures [non-nil] r1 == nil ==> (forall k :: 0 <= k && k < len(r0) ==> r0[k] != nil)
+//@ end
+
+//@ -- C02 (ideal reals): a valid ID is mapped to the corners / the centre of its own voxel
+//@ case GetPointOnExtendedSpatialId valid
+//@   props C02
+//@   float ideal
+//@   shape extendedSpatialId ext gh gx gy gv gf
+//@   split gh 0..35
+//@   split gv 0..35
+//@   quickstride 16
+//@   requires 0 <= gx && gx < pow2(gh) && 0 <= gy && gy < pow2(gh) && 0 - pow2(gv) <= gf && gf < pow2(gv)
+//@   requires abs(cut10(rowlat(gy, gh))) <= 85.051128779799995527355349622666835784912109375 && abs(cut10(rowlat(gy + 1, gh))) <= 85.051128779799995527355349622666835784912109375
+//@   ensures [vertex] option == 0 ==> r1 == nil && len(r0) == 8 && r0[0].lon == collon(gx, gh) && r0[0].lat == cut10(rowlat(gy, gh)) && r0[0].alt == real(gf) * rpow2(25 - gv) && r0[6].lon == collon(gx + 1, gh) && r0[6].lat == cut10(rowlat(gy + 1, gh)) && r0[6].alt == real(gf + 1) * rpow2(25 - gv)
+//@   ensures [centre] option == 1 ==> r1 == nil && len(r0) == 1 && r0[0].lon == (collon(gx, gh) + collon(gx + 1, gh)) / 2.0 && r0[0].lat == cut10((cut10(rowlat(gy, gh)) + cut10(rowlat(gy + 1, gh))) / 2.0) && r0[0].alt == (real(gf) + 0.5) * rpow2(25 - gv)
 //@ end
 
 //@ func GetPointOnSpatialId
@@ -127,6 +166,20 @@ package shape
 //@   nooverflow
 //@   loop 0 unroll 8
 //@   ensures r0 != nil
+//@ end
+
+//@ -- C02 (ideal reals): the centre is the midpoint of the box on every axis (latitude cut again at 1e-10)
+//@ case getCenterPointOnVoxelOffset ideal-centre
+//@   quickstride 4
+//@   props C02
+//@   float ideal
+//@   split hZoom 0..35
+//@   loop 0 unroll 8
+//@   requires 0 <= lonIndex && lonIndex < pow2(hZoom) && 0 <= latIndex && latIndex < pow2(hZoom) && vPoint.Resolution >= 0.0
+//@   requires abs(cut10(rowlat(latIndex, hZoom))) <= 85.051128779799995527355349622666835784912109375 && abs(cut10(rowlat(latIndex + 1, hZoom))) <= 85.051128779799995527355349622666835784912109375
+//@   ensures [lon] r0.lon == (collon(lonIndex, hZoom) + collon(lonIndex + 1, hZoom)) / 2.0
+//@   ensures [lat] r0.lat == cut10((cut10(rowlat(latIndex, hZoom)) + cut10(rowlat(latIndex + 1, hZoom))) / 2.0)
+//@   ensures [alt] r0.alt == vPoint.Alt + vPoint.Resolution / 2.0
 //@ end
 
 //@ -- C06 / C15 / C16 (error behaviour, end-point voxels, single-voxel case, duplicate-freedom): the line.
